@@ -57,7 +57,7 @@ def worklist_methods(ctx, dev):
     names = sorted({m for k in ctx.prog.mro(dev) if hasattr(k, "methods") for m in k.methods})
     for name in names:
         f = ctx.prog.find_method(dev, name)
-        if f is not None:
+        if f is not None and f.qualname not in ctx.prog.inlined_helpers:
             yield name, f
 
 
